@@ -11,6 +11,7 @@ import json
 from vlib import common, histcheck, miri
 
 MODULE = "TriompheModel.Props.C08"
+EXTRA = ["TriompheModel.Props.Gates"]
 TAGS = ["C08"]
 WEIGHTS = dict(makeMut=26, makeUnique=14, clone=18, cloneArc=8, conv=16, cb=8, drop=10)
 PROGRAMS_QUICK = ["make_mut_vs_readers"]
@@ -50,10 +51,9 @@ def schedule_search(ctx, prop, bad, lean_failed):
 
 def run(ctx):
     facts, res, bad = schedule_part(ctx, "C08", PROGRAMS_QUICK)
-    histcheck.run(ctx, MODULE, WEIGHTS, TAGS)
-    lean_failed = [n for n in ctx.failed_obligations() if n.startswith("lean:") and ("obl_" in n or "exclusive" in n)]
-    if (lean_failed or bad) and not any(v["kind"] == "miri" for v in ctx.violations):
-        schedule_search(ctx, "C08", bad, lean_failed)
+    histcheck.run(ctx, MODULE, WEIGHTS, TAGS, lean_extra=EXTRA)
+    if bad and not any(v["kind"] == "miri" for v in ctx.violations) and not getattr(ctx, "sched_handled", False):
+        schedule_search(ctx, "C08", bad, [])
 
 
 def replay(ctx, path):
